@@ -74,6 +74,7 @@ type Contract struct {
 	NoReads    []*DelegateSpec // Callee = "Type.field": the function never reads that struct field
 	NoGlobals  []string // tags: the function (and what it inlines) references no package-level variable
 	Delegates  *DelegateSpec
+	UseLocals  bool     // assume the local (value-level) clauses of callees too
 	Trust      []string // obligation kinds assumed instead of proved in this function (reported)
 	Keeps      []*WriteSpec
 	Loops      map[int]*LoopSpec
@@ -270,10 +271,24 @@ func (sp *Specs) parseLine(cur **Contract, line, file string, ln int) error {
 		sp.Lemmas = append(sp.Lemmas, c)
 		return nil
 	case "global":
-		c, err := mk("global", rest)
+		parts := strings.SplitN(rest, " ", 2)
+		if len(parts) != 2 {
+			return fmt.Errorf("global <pkg.name> <invariant over g>")
+		}
+		text := strings.TrimSpace(parts[1])
+		var gtags []string
+		if strings.HasPrefix(text, "[") {
+			if j := strings.Index(text, "]"); j > 0 {
+				gtags = parseTags(text[:j+1])
+				text = strings.TrimSpace(text[j+1:])
+			}
+		}
+		c, err := mk("global", text)
 		if err != nil {
 			return err
 		}
+		c.Tags = gtags
+		c.Name = parts[0]
 		sp.Globals = append(sp.Globals, c)
 		return nil
 	}
@@ -355,6 +370,8 @@ func (sp *Specs) parseLine(cur **Contract, line, file string, ln int) error {
 			return fmt.Errorf("delegates <callee key> <global>")
 		}
 		c.Delegates = &DelegateSpec{Tags: tags, Callee: f[0], Global: f[1]}
+	case "uselocals":
+		c.UseLocals = true
 	case "trust":
 		c.Trust = append(c.Trust, strings.Fields(rest)...)
 	case "allocsite":
